@@ -29,6 +29,7 @@ type kindCfg struct {
 	// expected file per level name for the rolling "separate" kinds ("" = any file)
 	fileFor map[string]string
 	discard bool // items may be discarded by policy (then only no-duplicate / whole-line is checked)
+	shared  bool // two loggers share one appender: Destroy's stop order is explored (map-order seam)
 }
 
 func kindConfigs() []kindCfg {
@@ -85,6 +86,20 @@ func kindConfigs() []kindCfg {
 		roll(true, true, "Block", false),
 		roll(false, true, "Discard", false),
 		roll(false, true, "DiscardOldest", true),
+		// one appender shared by two loggers (appenders belong to the configuration, not to a logger): whatever the
+		// order in which Destroy stops the loggers (map-order seam), the asynchronous one still flushes into it
+		{name: "shared File: Logger + AsyncLogger(Block)", target: "files", shared: true, conf: base(map[string]string{
+			"appender.f.type": "File", "appender.f.fileDir": "/logs", "appender.f.fileName": "app.log",
+			"logger.root.type": "Logger", "logger.root.appenderRef.ref": "f",
+			"logger.biz.type": "AsyncLogger", "logger.biz.level": "INFO", "logger.biz.tags": "_c03_b", "logger.biz.bufferSize": "100", "logger.biz.bufferFullPolicy": "Block", "logger.biz.appenderRef.ref": "f"})},
+		{name: "shared Rolling: AsyncLogger(Block) + AsyncLogger(Block)", target: "files", shared: true, conf: base(map[string]string{
+			"appender.f.type": "RollingFile", "appender.f.fileDir": "/logs", "appender.f.fileName": "app.log", "appender.f.rotation": "h", "appender.f.maxAge": "24",
+			"logger.root.type": "AsyncLogger", "logger.root.bufferSize": "100", "logger.root.bufferFullPolicy": "Block", "logger.root.appenderRef.ref": "f",
+			"logger.zed.type": "AsyncLogger", "logger.zed.level": "INFO", "logger.zed.tags": "_c03_b", "logger.zed.bufferSize": "100", "logger.zed.bufferFullPolicy": "Block", "logger.zed.appenderRef.ref": "f"})},
+		{name: "shared Console: AsyncLogger(Block) + Logger", target: "console", shared: true, conf: base(map[string]string{
+			"appender.c.type":  "Console",
+			"logger.root.type": "AsyncLogger", "logger.root.bufferSize": "100", "logger.root.bufferFullPolicy": "Block", "logger.root.appenderRef.ref": "c",
+			"logger.zed.type": "Logger", "logger.zed.level": "INFO", "logger.zed.tags": "_c03_b", "logger.zed.appenderRef.ref": "c"})},
 	}
 }
 
@@ -250,6 +265,10 @@ func init() {
 				}
 				k := kindConfigs()[i]
 				k.discard = strings.Contains(k.name, "Discard")
+				if k.shared {
+					b.Env[zzvrt.SeamMapOrder] = 1
+					b.Preempt-- // quick 1, thorough 2: the stop order is the dimension that matters here
+				}
 				return kindScenario(prop, k, b)
 			}})
 	}
